@@ -354,11 +354,14 @@ Qed.
    filter on [serve]'s three reply shapes, agreement of [serve] with [auth_answer] at the owning zone,
    termination (C08_recursive_terminates) and provenance (C07_answer_provenance); plus the worked
    two-level universe evaluated inside Coq (C07_example_two_level).
-   MISSING to chain the hops into the whole statement, even for depth 1 (root -> one child zone):
-   (1) that resolve_hostname_to_ip yields, for the candidate the loop pops, an address at which a
-       server of the delegated zone listens -- from the root-hints zone for the first hop (needs the
-       lookup behaviour of a zone built by Zone::insert for arbitrary names: C02's flat specification)
-       and from the cached glue for the later ones (needs "get after insert_all" for SimpleCache);
+   DEPTH 1 IS NOW PROVED (end of this file: C07_correct_depth0, C07_correct_depth1 -- root hints built
+   by Zone::insert, empty SimpleCache, only-v4, no alias, glue-complete delegation from the root).
+   MISSING to chain the hops into the whole statement for arbitrary depth:
+   (1) (done for depth 1: C07_hints_zone_lookup through C02's flat specification,
+       C07_simple_cache_get_after_insert_all) that resolve_hostname_to_ip yields, for the candidate
+       the loop pops, an address at which a server of the delegated zone listens, at EVERY level:
+       the cache then holds the glue of several referrals (get after several insert_all), and a
+       nameserver host without glue must itself be resolved recursively;
    (2) (done: C07_universe_oracle_delivers discharges [delivers] for the fault-free universe oracle
        under [serve_fits] -- well-formed replies of at most 512 octets -- which remains a hypothesis
        on the universe, decidable per question);
@@ -368,3 +371,195 @@ Qed.
    Until then "the result EQUALS auth_answer" is covered by the differential stream (vlib/p_c07.py:
    the implementation's result = the extracted auth_answer on every generated consistent universe,
    the model = the implementation on every exchange). *)
+
+(* ====================================================================== *)
+(* C07_correct for DEPTH 1 (lemmas: Resolver/RecursiveDepth1.v)             *)
+(* ====================================================================== *)
+From Coq Require Import Permutation.
+From RV Require Import Name.NameSpec Zone.ZoneFlat Resolver.RecursiveDepth1.
+
+(* For EVERY universe [u] with a root zone [zroot], every list [hints] of root hints (NS records of
+   the root, A records of the hosts they name) from which Zone::insert builds the resolver's only
+   local zone, every order [sort_names] of the candidate list that is a permutation, every port and
+   every fuel >= 3: started on an empty SimpleCache in protocol mode only-v4 against the fault-free
+   universe oracle (through the wire codec), the recursive resolver returns EXACTLY the
+   authoritative answer -- the records of the asked type at the name as the owning zone lists
+   them, or no records and that zone's SOA (NODATA / NXDOMAIN) -- when the zone owning the question
+   name is the root zone (one exchange, with a root server) ...
+
+   Hypotheses (definitions in RecursiveDepth1.v, each with its reading):
+     hints_for u zroot hints q     the hints are well formed, name a nameserver, hold an A record for
+                                   each, lead to servers of the root zone, do not answer q themselves
+     plain_question u q            q well formed, not for CNAME / ANY; request and the servers'
+                                   replies fit a 512-octet datagram and are well-formed messages
+     answering_zone u z q          z owns the name (longest apex, no cut on the way), no alias there;
+                                   known record types; its SOA is an SOA at its apex *)
+Theorem C07_correct_depth0 :
+  forall (sort_names : list dname -> list dname) (port : N) (u : universe) (zroot : uzone)
+         (hints : list rr) (hz : zone) (q : question) (fuel : nat),
+  (forall l, Permutation (sort_names l) l) ->
+  uz_apex zroot = root_domain ->
+  zone_build root_domain None (hint_ops hints) = Ok hz ->
+  hints_for u zroot hints q -> plain_question u q ->
+  answering_zone u zroot q -> (3 <= fuel)%nat ->
+  exists c' ts' a e,
+    resolve scache sc_get sc_insert_all sort_names (ModeRecursive OnlyV4) port (zones_insert [] hz)
+            (universe_oracle u []) fuel q (sc_empty, tstate_init)
+    = (Ok (NonAuthoritative (aa_rrs (auth_answer u q)) (aa_soa (auth_answer u q))), (c', ts'))
+    /\ ts_log ts' = [e] /\ query_to port q a e /\ serves_owner u (inl a) zroot q.
+Proof.
+  intros sort_names port u zroot hints hz q fuel Hs Ha Hb Hh Hq Hz Hf.
+  exact (depth0_correct sort_names Hs port u zroot hints hz q Ha Hb Hh Hq fuel Hz Hf).
+Qed.
+Print Assumptions C07_correct_depth0.
+
+(* ... and when it is a zone [zc] delegated from the root zone with glue (two exchanges: a root
+   server's referral, then a server of [zc]).
+     delegated_from_root u zroot zc hints q
+        the root zone's delegation point on the way to the name is the apex of zc; its cut records
+        are NS records; every nameserver of the delegation has an A record with positive TTL in the
+        root zone's glue (glue-complete, wherever the host's name lies); all those addresses (and the
+        hints' addresses for such a host, if any) are servers whose closest zone for the name is zc;
+        the question name itself owns no glue (finding F11) *)
+Theorem C07_correct_depth1 :
+  forall (sort_names : list dname -> list dname) (port : N) (u : universe) (zroot zc : uzone)
+         (hints : list rr) (hz : zone) (q : question) (fuel : nat),
+  (forall l, Permutation (sort_names l) l) ->
+  zone_build root_domain None (hint_ops hints) = Ok hz ->
+  hints_for u zroot hints q -> plain_question u q ->
+  answering_zone u zc q -> delegated_from_root u zroot zc hints q -> (3 <= fuel)%nat ->
+  exists c' ts' a0 a1 e1 e2,
+    resolve scache sc_get sc_insert_all sort_names (ModeRecursive OnlyV4) port (zones_insert [] hz)
+            (universe_oracle u []) fuel q (sc_empty, tstate_init)
+    = (Ok (NonAuthoritative (aa_rrs (auth_answer u q)) (aa_soa (auth_answer u q))), (c', ts'))
+    /\ ts_log ts' = [e1; e2] /\ query_to port q a0 e1 /\ query_to port q a1 e2
+    /\ serves_owner u (inl a0) zroot q /\ serves_owner u (inl a1) zc q.
+Proof.
+  intros sort_names port u zroot zc hints hz q fuel Hs Hb Hh Hq Hz Hd Hf.
+  exact (depth1_correct sort_names Hs port u zroot hints hz q Hb Hh Hq zc fuel Hz Hd Hf).
+Qed.
+Print Assumptions C07_correct_depth1.
+
+(* the order of hook H5 (what resolve_simple, the model the driver runs, uses) is a permutation *)
+Theorem C07_sort_names_ord_permutation : forall l, Permutation (sort_names_ord l) l.
+Proof. exact sort_names_ord_perm. Qed.
+Print Assumptions C07_sort_names_ord_permutation.
+
+(* the lookup fact behind the first step, for EVERY list of hints: the zone Zone::insert builds from
+   them answers a lookup (any well-formed name, any type but ANY) with exactly the matching hints,
+   owner = the query name, or finds nothing (C02's flat specification: resolve_refines_flat) *)
+Theorem C07_hints_zone_lookup : forall hints hz name qt,
+  Forall hint_ok hints -> zone_build root_domain None (hint_ops hints) = Ok hz ->
+  wf_name name -> qt <> QT_Wildcard ->
+  exists zr, zone_resolve hz name qt = Some (Ok zr) /\
+    ((zr = ZNameError /\ forall x, ~ hint_match hints name qt x) \/
+     (exists rrs, zr = ZAnswer rrs /\ forall x, In x rrs <-> hint_match hints name qt x)).
+Proof. intros hints hz name qt Hh Hb. exact (hints_zone_resolve hints Hh hz name qt Hb). Qed.
+Print Assumptions C07_hints_zone_lookup.
+
+(* "get after insert_all" for SimpleCache: an address record inserted with a positive TTL into the
+   empty cache is read back, and what is read back was inserted *)
+Theorem C07_simple_cache_get_after_insert_all :
+  (forall n t, sc_get sc_empty n t = [])
+  /\ (forall rrs r, In r rrs -> rr_type r = RT_A -> 0 < rr_ttl r ->
+        sc_get (sc_insert_all sc_empty rrs) (rr_name r) RT_A <> [])
+  /\ (forall rrs n x, In x (sc_get (sc_insert_all sc_empty rrs) n RT_A) ->
+        rr_name x = n /\ rr_type x = RT_A /\ rr_class x = RC_IN /\
+        exists r, In r rrs /\ rr_name r = n /\ rr_type r = RT_A /\ rr_data r = rr_data x).
+Proof. split; [exact sc_empty_get|]. split; [exact sc_get_a_complete|exact sc_get_a_sound]. Qed.
+Print Assumptions C07_simple_cache_get_after_insert_all.
+
+(* ---- the hypotheses are met by the worked universe of C07_example_two_level ---- *)
+Definition ex_hint_rrs : list rr := [mk_rr n_root RT_NS 3600 (RD_Name n_a); mk_rr n_a RT_A 3600 (RD_A ip_root)].
+Definition ex_hz : zone :=
+  match zone_build root_domain None (hint_ops ex_hint_rrs) with Ok z => z | _ => zone_new root_domain None end.
+(* a name the root zone owns (and does not hold): www. *)
+Definition ex_q_root : question := {| q_name := nm [l_www]; q_type := RT_A; q_class := RC_IN |}.
+
+Lemma ex_hz_built : zone_build root_domain None (hint_ops ex_hint_rrs) = Ok ex_hz.
+Proof. vm_compute. reflexivity. Qed.
+
+(* the hints zone of C07_example_two_level is that zone *)
+Example C07_example_hints_zone : zones_insert [] ex_hz = ex_hints.
+Proof. vm_compute. reflexivity. Qed.
+
+Lemma ex_serves_root q : q_name q = n_www_com \/ q_name q = nm [l_www] ->
+  serves_owner ex_universe (inl ip_root) ex_root_zone q.
+Proof. intros [E|E]; eexists; rewrite E; split; vm_compute; reflexivity. Qed.
+
+Lemma ex_hints_for q : (q = ex_q_www \/ q = ex_q_root) -> hints_for ex_universe ex_root_zone ex_hint_rrs q.
+Proof.
+  intro Hq. split; [|split; [|split; [|split]]].
+  - apply Forall_cons; [|apply Forall_cons; [|apply Forall_nil]]; (split; [apply wf_name_b_sound; vm_compute; reflexivity|]).
+    + left. split; [reflexivity|]. split; [reflexivity|]. eexists. reflexivity.
+    + right. split; [reflexivity|]. eexists. reflexivity.
+  - eexists. split; [left; reflexivity|reflexivity].
+  - intros r h [<-|[<-|[]]] Ht Hd; [|discriminate Ht]. inversion Hd; subst h.
+    split; [apply wf_name_b_sound; vm_compute; reflexivity|].
+    eexists. split; [right; left; reflexivity|]. split; reflexivity.
+  - intros g a [<-|[<-|[]]] Ht Hd; [discriminate Ht|]. inversion Hd; subst a.
+    apply ex_serves_root. destruct Hq as [-> | ->]; [left|right]; reflexivity.
+  - intros r [<-|[<-|[]]] Hl; destruct Hq as [-> | ->]; vm_compute in Hl; discriminate Hl.
+Qed.
+
+Lemma ex_serve_fits q : (q = ex_q_www \/ q = ex_q_root) -> serve_fits ex_universe q.
+Proof.
+  intros Hq a m H. unfold serve, zones_of_server in H. cbn [ex_universe u_servers find fst] in H.
+  destruct (ip_eqb (inl ip_root) a).
+  - destruct Hq as [-> | ->]; inversion H; subst; (split; [apply wf_message_b_sound; vm_compute; reflexivity|]);
+      eexists; (split; [vm_compute; reflexivity|vm_compute; discriminate]).
+  - destruct (ip_eqb (inl ip_com) a); [|discriminate].
+    destruct Hq as [-> | ->]; inversion H; subst; (split; [apply wf_message_b_sound; vm_compute; reflexivity|]);
+      eexists; (split; [vm_compute; reflexivity|vm_compute; discriminate]).
+Qed.
+
+Lemma ex_plain_question q : (q = ex_q_www \/ q = ex_q_root) -> plain_question ex_universe q.
+Proof.
+  intro Hq. split; [|split; [|split; [|split]]].
+  - apply wf_question_b_sound. destruct Hq as [-> | ->]; vm_compute; reflexivity.
+  - destruct Hq as [-> | ->]; discriminate.
+  - destruct Hq as [-> | ->]; discriminate.
+  - intros req E. destruct Hq as [-> | ->]; vm_compute in E; inversion E; subst; vm_compute; discriminate.
+  - apply ex_serve_fits, Hq.
+Qed.
+
+Lemma ex_known z : z = ex_root_zone \/ z = ex_com_zone -> Forall (fun r => rr_is_unknown r = false) (zone_data z).
+Proof. intros [-> | ->]; vm_compute; repeat constructor. Qed.
+
+(* www. : the root zone owns it; one exchange, NXDOMAIN with the root's SOA *)
+Example C07_example_depth0 : exists c' ts' a e,
+  resolve scache sc_get sc_insert_all sort_names_ord (ModeRecursive OnlyV4) 53 (zones_insert [] ex_hz)
+          (universe_oracle ex_universe []) 100%nat ex_q_root (sc_empty, tstate_init)
+  = (Ok (NonAuthoritative [] (Some (uz_soa ex_root_zone))), (c', ts'))
+  /\ ts_log ts' = [e] /\ query_to 53 ex_q_root a e /\ serves_owner ex_universe (inl a) ex_root_zone ex_q_root.
+Proof.
+  apply (C07_correct_depth0 sort_names_ord 53 ex_universe ex_root_zone ex_hint_rrs ex_hz ex_q_root 100%nat
+           C07_sort_names_ord_permutation eq_refl ex_hz_built (ex_hints_for _ (or_intror eq_refl))
+           (ex_plain_question _ (or_intror eq_refl))); [|lia].
+  split; [|split; [apply ex_known; left; reflexivity|split; reflexivity]].
+  repeat split; vm_compute; reflexivity.
+Qed.
+
+(* www.com. : com. owns it, delegated from the root with glue for ns.com.; two exchanges *)
+Example C07_example_depth1 : exists c' ts' a0 a1 e1 e2,
+  resolve scache sc_get sc_insert_all sort_names_ord (ModeRecursive OnlyV4) 53 (zones_insert [] ex_hz)
+          (universe_oracle ex_universe []) 100%nat ex_q_www (sc_empty, tstate_init)
+  = (Ok (NonAuthoritative [mk_rr n_www_com RT_A 300 (RD_A 3221225985)] None), (c', ts'))
+  /\ ts_log ts' = [e1; e2] /\ query_to 53 ex_q_www a0 e1 /\ query_to 53 ex_q_www a1 e2
+  /\ serves_owner ex_universe (inl a0) ex_root_zone ex_q_www /\ serves_owner ex_universe (inl a1) ex_com_zone ex_q_www.
+Proof.
+  apply (C07_correct_depth1 sort_names_ord 53 ex_universe ex_root_zone ex_com_zone ex_hint_rrs ex_hz ex_q_www 100%nat
+           C07_sort_names_ord_permutation ex_hz_built (ex_hints_for _ (or_introl eq_refl))
+           (ex_plain_question _ (or_introl eq_refl))); [| |lia].
+  - split; [|split; [apply ex_known; right; reflexivity|split; reflexivity]].
+    repeat split; vm_compute; reflexivity.
+  - split; [vm_compute; reflexivity|]. split; [repeat constructor; eexists; vm_compute; reflexivity|].
+    split; [vm_compute; reflexivity|]. split.
+    + intros r [<-|[<-|[<-|[]]]]; vm_compute; discriminate.
+    + intros h (r & [<-|[]] & _ & Hh). vm_compute in Hh. inversion Hh; subst h.
+      split; [apply wf_name_b_sound; vm_compute; reflexivity|]. split; [|split].
+      * eexists. split; [left; reflexivity|]. split; [reflexivity|]. split; [reflexivity|vm_compute; reflexivity].
+      * intros g [<-|[<-|[<-|[]]]] Hn Ht; try (vm_compute in Hn; discriminate Hn).
+        eexists. split; [reflexivity|]. eexists. split; vm_compute; reflexivity.
+      * intros g a [<-|[<-|[]]] Hl; vm_compute in Hl; discriminate Hl.
+Qed.
